@@ -7,7 +7,7 @@
 
 use super::conversions::{safe_coords_to_f64, safe_scalar_from_f64, safe_scalar_to_f64};
 use super::norms::{hypot, squared_norm};
-use crate::geometry::matrix::matrix_set;
+use crate::geometry::matrix::{is_numerically_singular, matrix_set};
 use crate::geometry::point::Point;
 use crate::geometry::traits::coordinate::{Coordinate, ScalarSummable};
 use la_stack::{DEFAULT_PIVOT_TOL, LaError, Vector as LaVector};
@@ -139,6 +139,15 @@ where
         // Use safe coordinate conversion for squared distance
         let squared_distance_f64: f64 = safe_scalar_to_f64(squared_distance)?;
         b_arr[i] = squared_distance_f64;
+    }
+
+    // The pivot thresholds below are absolute, and the zero-tolerance fallback only rejects an
+    // exactly zero pivot; a degenerate simplex whose elimination leaves a rounding-noise pivot
+    // would otherwise be "solved" into an astronomically distant point.
+    if is_numerically_singular(&a) {
+        return Err(CircumcenterError::MatrixInversionFailed {
+            details: "degenerate simplex: edge matrix is singular up to rounding".to_string(),
+        });
     }
 
     // Solve for x, then C = x0 + 1/2 * x.
